@@ -152,10 +152,36 @@ def values_equal(st, a, b):
     return F
 
 
+_IDENTITY_BY_VALUE_KINDS = ("bool", "enum")
+
+
+def _value_typed(v):
+    """operands whose identity CPython does not define by value: numbers, strings, bytes, tuples, datetimes (None, True/False and enum
+    members are singletons; heap objects have an object identity in the model)"""
+    if isinstance(v, bool) or v is None:
+        return False
+    if isinstance(v, (int, float, str, bytes, tuple)):
+        return True
+    return isinstance(v, Sym) and v.kind not in _IDENTITY_BY_VALUE_KINDS
+
+
 def identical(st, a, b):
-    """Python `a is b`; scalars/enums compare by value (enum members are singletons; small-int caveat ignored)"""
+    """Python `a is b`.  Heap objects: object identity.  None / True / False / enum members: singletons, so by value.  Numbers, strings,
+    bytes, tuples: identity is implementation-defined (small-int cache, interning of literals): the result is an unconstrained Boolean
+    that can only be true when the values are equal - so code relying on `is` between such values is verified for both outcomes."""
     if isinstance(a, Ref) and isinstance(b, Ref):
         return z3.BoolVal(a.oid == b.oid)
+    va, vb = strip_opt(a), strip_opt(b)
+    if a is not b and va is not None and vb is not None and _value_typed(va) and _value_typed(vb):
+        eq = values_equal(st, a, b)
+        if z3.is_false(eq):
+            return eq
+        from .values import fresh_name
+        same = z3.Bool(fresh_name("same_object"))
+        na, nb = is_none(a), is_none(b)
+        both_some = simp(z3.And(z3.Not(na), z3.Not(nb)))
+        st.assume(z3.Implies(same, eq))
+        return simp(z3.Or(z3.And(na, nb), z3.And(both_some, same)))
     return values_equal(st, a, b)
 
 
